@@ -535,6 +535,11 @@ def _predict(ctx, f):
     # D = [_create_psms(ds, get_index_values(chunk, 'fold', i, ORIG), ..)
     #      for i in range(n)]   (one or two comprehensions, fused here)
     dc = _plain_comp(fuse_comps(D)) if D else None
+    if D is not None and dc is None and fuse_comps(D)[0] != "comp":
+        raise AnalysisError(
+            f"{f.qual}: the per-chunk list of fold slices is built in a "
+            f"form the rule does not read ({show(D, 100)}); rule C02b "
+            "needs re-reading")
     ok_list = ok_s = False
     L = chunk_t = orig_t = None
     ds_t = None
